@@ -159,15 +159,20 @@ def client_cases(rng, n, lossy=True):
     """run the real sync / async clients against a conforming agent in random configurations (engine id given /
     None / b"", every digest x cipher x key type, optionally with lost discovery probes); yields
     (key, script, outcome, judge-reason-or-None)"""
+    # stratified: every client x digest x (engine id given / discovered) x (probes lost / not) combination occurs
+    # once per 24 cases, in a shuffled order; cipher, key types, OIDs and the loss pattern are drawn independently
+    deck = []
     for k in range(n):
-        # (independent draws: every digest x cipher x mode x discovery x loss pattern combination can occur)
-        auth = rng.choice([0, 1, 1, 2, 2])
-        priv = rng.choice([0, 1, 2]) if auth else 0
-        discover = rng.random() < 0.6
+        if not deck:
+            deck = [(m, a, d, lo) for m in ("sync", "async") for a in (0, 1, 2) for d in (True, False)
+                    for lo in ((True, False) if lossy else (False,))]
+            rng.shuffle(deck)
+        mode, auth, discover, lose = deck.pop()
+        priv = rng.choice([1, 2, 1, 2, 0]) if auth else 0
         peer = sessions.rand_v3_peer(rng, auth=auth, priv=priv)
-        mode = "sync" if k % 2 == 0 else "async"
         oids = [o for o in (sessions.rand_oid_text(rng) for _ in range(rng.randrange(1, 4))) if o.count(".") >= 1] or ["1.3.6.1"]
-        drop = rng.choice([(0,), (1,), (0, 1), (0, 2)]) if (lossy and rng.random() < 0.4) else ()
+        # (the first probe is the one whose loss leaves a half-configured session behind: lost in 4 patterns of 5)
+        drop = rng.choice([(0,), (0,), (0, 1), (0, 2), (1,)]) if lose else ()
         script, r, results = (run_sync_client if mode == "sync" else run_async_client)(rng, peer, discover, oids, drop)
         key = f"{mode}:{peer.label}:{'discovered' if discover else 'configured'}" + (f":lost{list(drop)}" if drop else "")
         why = None
